@@ -28,10 +28,17 @@
   matter of the channel player, C12).  The theorems are therefore stated without them, which
   is stronger.
 
-  The proofs are in `Proofs/Rewrite.lean`.
+  The proofs are in `Proofs/Rewrite.lean`.  The notions the statements use — the side conditions
+  and segments of the rewrites (`FoldSide`, `foldX`, `foldX'`, `Fold0Side`, `fold0X`, `fold0X'`,
+  `ExtractSide`), `obsOf` / `okTrack`, one pass (`Step`, `StepN`), sequences of passes (`chain`,
+  `chainN`, `lastSong`), the validator of the property (`validAll`) — are defined in
+  `Proofs/OptChain.lean`, with the helper lemmas about them; the well-formedness of songs
+  (`SongWF`, `FreshInv`, `SongI16`) and the measure (`totalEvents`, `playedEvents`) in
+  `Proofs/OptPass.lean`, `Proofs/OptSubPass.lean`, `Proofs/OptAnalyze.lean`, `Proofs/OptMeasure.lean`.
+  This file holds the property theorems, the statements that are not proved (`def … : Prop`) and the
+  non-vacuity examples.
 -/
-import Ctrmml.Proofs.Rewrite
-import Ctrmml.Proofs.OptMeasure
+import Ctrmml.Proofs.OptChain
 namespace Ctrmml.C01
 open Ctrmml Ctrmml.Tree Ctrmml.Expand Ctrmml.Rewrite Tables
 
@@ -39,68 +46,6 @@ open Ctrmml Ctrmml.Tree Ctrmml.Expand Ctrmml.Rewrite Tables
 theorem C01_repeat_unfold (n : Nat) (l : List Item) : repeatItems (n + 1) l = l ++ repeatItems n l := rfl
 
 /-! ## the loop fold -/
-
-/-- side conditions of the loop fold with remainder -/
-structure FoldSide (A0 A1 : List Node) (k : Nat) (ls lb le : Event) : Prop where
-  c0 : closedL A0
-  c1 : closedL A1
-  b0 : hasTopBreak A0 = false
-  b1 : hasTopBreak A1 = false
-  kls : ls.kind = .loopStart
-  klb : lb.kind = .loopBreak
-  kle : le.kind = .loopEnd
-  zls : ls.on = 0 ∧ ls.off = 0
-  zlb : lb.on = 0 ∧ lb.off = 0
-  zle : le.on = 0 ∧ le.off = 0
-  count : le.param = (k : Int) + 2
-
-/-- the folded segment: the phrase `A0 A1`, `k` more copies, and the prefix `A0` -/
-def foldX (A0 A1 : List Node) (k : Nat) : List Event :=
-  flattenL (A0 ++ A1) ++ flattenL (List.replicate k (A0 ++ A1)).flatten ++ flattenL A0
-
-/-- what `apply_match` leaves in its place (`LOOP_START`, `LOOP_BREAK` at the break point,
-`LOOP_END` with `repeats = L/len + 1 + 1`) -/
-def foldX' (A0 A1 : List Node) (ls lb le : Event) : List Event :=
-  ls :: (flattenL A0 ++ lb :: flattenL A1 ++ [le])
-
-theorem foldX_eq (A0 A1 : List Node) (k : Nat) : foldX A0 A1 k = flattenL (foldSrc A0 A1 k) := by
-  simp [foldX, foldSrc, flattenL_append]
-
-theorem foldDstX_eq (A0 A1 : List Node) (ls lb le : Event) :
-    foldX' A0 A1 ls lb le = flattenL (foldDst A0 A1 ls lb le) := by
-  simp [foldX', foldDst, flattenL, flattenN, flattenL_append]
-
-/-- General form: songs whose tracks are equal up to folds of this shape at any number of
-places, root tracks likewise. -/
-theorem C01_fold_rel {A0 A1 : List Node} {k : Nat} {ls lb le : Event} (h : FoldSide A0 A1 k ls lb le)
-    {S S' : Song} (htr : SongRel (foldSrc A0 A1 k) (foldDst A0 A1 ls lb le) S S')
-    {root root' : List Event} (hroot : ERel (foldSrc A0 A1 k) (foldDst A0 A1 ls lb le) root root') :
-    ResRel (perf S root) (perf S' root') :=
-  perf_rel S S' (foldSrc_closed h.c0 h.c1 k) (foldDst_closed h.c0 h.c1 h.kls h.klb h.kle)
-    (fun _ _ _ hc => fold_FEq hc A0 A1 k ls lb le h.b0 h.b1 h.kls h.klb h.kle h.zls h.zlb h.zle h.count)
-    htr hroot
-
-theorem fold_songRel {A0 A1 : List Node} {k : Nat} {ls lb le : Event}
-    {S S' : Song} {l1 l2 : Tracks} {tid : Nat} {pre post : List Event}
-    (hS : S.tracks = l1 ++ (tid, pre ++ foldX A0 A1 k ++ post) :: l2)
-    (hS' : S'.tracks = l1 ++ (tid, pre ++ foldX' A0 A1 ls lb le ++ post) :: l2) :
-    SongRel (foldSrc A0 A1 k) (foldDst A0 A1 ls lb le) S S' := by
-  apply SongRel.of_tracks
-  rw [hS, hS', foldX_eq, foldDstX_eq]
-  exact TracksRel.one (ERel.refl _ _) l1 l2 tid (ERel.ctx _ _ pre post)
-
-/-- both directions at once, for a track `id` of the song -/
-theorem fold_track_rel {A0 A1 : List Node} {k : Nat} {ls lb le : Event} (h : FoldSide A0 A1 k ls lb le)
-    {S S' : Song} {l1 l2 : Tracks} {tid : Nat} {pre post : List Event}
-    (hS : S.tracks = l1 ++ (tid, pre ++ foldX A0 A1 k ++ post) :: l2)
-    (hS' : S'.tracks = l1 ++ (tid, pre ++ foldX' A0 A1 ls lb le ++ post) :: l2)
-    {id : Nat} {t t' : List Event} (ht : S.track? id = some t) (ht' : S'.track? id = some t') :
-    ResRel (perf S t) (perf S' t') := by
-  have htr := fold_songRel (A0 := A0) (A1 := A1) (k := k) (ls := ls) (lb := lb) (le := le) hS hS'
-  obtain ⟨t'', h1, hr⟩ := htr id t ht
-  rw [ht'] at h1
-  cases h1
-  exact C01_fold_rel h htr hr
 
 /-- **Loop fold, soundness.**  In a song one of whose tracks contains the segment
 `A·A^k·A0` (anywhere: `pre`, `post` arbitrary) replace that segment by `[ A0 / A1 ](k+2)`.
@@ -146,50 +91,6 @@ theorem C01_fold_accepts {A0 A1 : List Node} {k : Nat} {ls lb le : Event} (h : F
 
 /-! ### the variant without remainder (no `LOOP_BREAK` is emitted) -/
 
-/-- side conditions of the loop fold without remainder: `k+1` copies of `A` -/
-structure Fold0Side (A : List Node) (k : Nat) (ls le : Event) : Prop where
-  c0 : closedL A
-  b0 : hasTopBreak A = false
-  kls : ls.kind = .loopStart
-  kle : le.kind = .loopEnd
-  zls : ls.on = 0 ∧ ls.off = 0
-  zle : le.on = 0 ∧ le.off = 0
-  count : le.param = (k : Int) + 1
-
-def fold0Src (A : List Node) (k : Nat) : List Node := (List.replicate (k + 1) A).flatten
-def fold0Dst (A : List Node) (ls le : Event) : List Node := [.loop ls A le]
-
-/-- `k+1` copies of the phrase -/
-def fold0X (A : List Node) (k : Nat) : List Event := flattenL (List.replicate (k + 1) A).flatten
-/-- `[ A ](k+1)` -/
-def fold0X' (A : List Node) (ls le : Event) : List Event := ls :: (flattenL A ++ [le])
-
-theorem fold0DstX_eq (A : List Node) (ls le : Event) : fold0X' A ls le = flattenL (fold0Dst A ls le) := by
-  simp [fold0X', fold0Dst, flattenL, flattenN]
-
-theorem C01_fold0_rel {A : List Node} {k : Nat} {ls le : Event} (h : Fold0Side A k ls le)
-    {S S' : Song} (htr : SongRel (fold0Src A k) (fold0Dst A ls le) S S')
-    {root root' : List Event} (hroot : ERel (fold0Src A k) (fold0Dst A ls le) root root') :
-    ResRel (perf S root) (perf S' root') :=
-  perf_rel S S' (closedL_replicate A h.c0 _) (by simp [closedL, Node.closed, h.c0, h.kls, h.kle])
-    (fun _ _ _ hc => fold0_FEq hc A k ls le h.b0 h.kls h.kle h.zls h.zle h.count)
-    htr hroot
-
-theorem fold0_track_rel {A : List Node} {k : Nat} {ls le : Event} (h : Fold0Side A k ls le)
-    {S S' : Song} {l1 l2 : Tracks} {tid : Nat} {pre post : List Event}
-    (hS : S.tracks = l1 ++ (tid, pre ++ fold0X A k ++ post) :: l2)
-    (hS' : S'.tracks = l1 ++ (tid, pre ++ fold0X' A ls le ++ post) :: l2)
-    {id : Nat} {t t' : List Event} (ht : S.track? id = some t) (ht' : S'.track? id = some t') :
-    ResRel (perf S t) (perf S' t') := by
-  have htr : SongRel (fold0Src A k) (fold0Dst A ls le) S S' := by
-    apply SongRel.of_tracks
-    rw [hS, hS', fold0DstX_eq]
-    exact TracksRel.one (ERel.refl _ _) l1 l2 tid (ERel.ctx _ _ pre post)
-  obtain ⟨t'', h1, hr⟩ := htr id t ht
-  rw [ht'] at h1
-  cases h1
-  exact C01_fold0_rel h htr hr
-
 /-- **Loop fold without remainder, soundness**: `A^(k+1) ↦ [ A ](k+1)`. -/
 theorem C01_fold0_sound {A : List Node} {k : Nat} {ls le : Event} (h : Fold0Side A k ls le)
     (S S' : Song) (l1 l2 : Tracks) (tid : Nat) (pre post : List Event)
@@ -213,26 +114,6 @@ theorem C01_fold0_accepts {A : List Node} {k : Nat} {ls le : Event} (h : Fold0Si
   exact ⟨y, hy, hr.sound hp hy⟩
 
 /-! ## subroutine extraction -/
-
-/-- side conditions of subroutine extraction: the phrase `X`, the inserted `JUMP` event `j` -/
-structure ExtractSide (X : List Node) (j : Event) : Prop where
-  cX : closedL X
-  bX : hasTopBreak X = false
-  kj : j.kind = .jump
-  zj : j.on = 0 ∧ j.off = 0
-
-theorem flatten_jump (j : Event) : flattenL [Node.ev j] = [j] := by simp [flattenL, flattenN]
-
-/-- General form: `S'` holds the phrase as track `trackIdOfParam j.param`; every track of `S`
-is a track of `S'` with any number of occurrences of the phrase replaced by `j`. -/
-theorem C01_extract_rel {X : List Node} {j : Event} (h : ExtractSide X j) {S S' : Song}
-    (hnew : S'.track? (trackIdOfParam j.param) = some (flattenL X))
-    (htr : SongRel X [.ev j] S S')
-    {root root' : List Event} (hroot : ERel X [.ev j] root root') :
-    ResRel (perf S root) (perf S' root') :=
-  perf_rel S S' h.cX (by simp [closedL, Node.closed, h.kj])
-    (fun k k' hlt _ => extract_FEq S S' X j k k' h.cX h.bX h.kj h.zj hnew hlt)
-    htr hroot
 
 /-- **Subroutine extraction, any number of occurrences in any tracks.**  `ts'` is the track
 list of `S` with occurrences of `flattenL X` replaced by `[j]` (`TracksRel (ERel X [.ev j])`:
@@ -286,77 +167,7 @@ theorem C01_extract_one_sound {X : List Node} {j : Event} (h : ExtractSide X j)
   rw [hS, hm, ← flatten_jump j]
   exact TracksRel.one (ERel.refl _ _) l1 l2 tid (ERel.ctx _ _ pre post)
 
-/-- two occurrences in one track are an instance of `ERel` (and so on for any number) -/
-theorem erel_two (X : List Node) (j : Event) (p0 p1 p2 : List Event) :
-    ERel X [.ev j] (p0 ++ flattenL X ++ p1 ++ flattenL X ++ p2) (p0 ++ [j] ++ p1 ++ [j] ++ p2) := by
-  rw [← flatten_jump j]
-  simp only [List.append_assoc]
-  exact ERel.prepend _ _ p0 (ERel.repl (ERel.prepend _ _ p1 (ERel.repl (ERel.refl _ _ p2))))
-
 /-! ## sequences of passes -/
-
-/-- the observation of track `id` of a song (`none` if it is missing or does not validate) -/
-def obsOf (S : Song) (id : Nat) : Option Obs :=
-  match S.track? id with
-  | none => none
-  | some t =>
-    match perf S t with
-    | .ok items => some (obs items)
-    | .error _ => none
-
-/-- track `id` exists and validates -/
-def okTrack (S : Song) (id : Nat) : Prop := ∃ t items, S.track? id = some t ∧ perf S t = .ok items
-
-/-- one optimiser pass: one of the rewrites under its side conditions, applied at any number
-of places (the fold is applied at one place by `apply_match`; extraction at several) -/
-inductive Step (S S' : Song) : Prop
-  | fold (A0 A1 : List Node) (k : Nat) (ls lb le : Event) (h : FoldSide A0 A1 k ls lb le)
-      (htr : SongRel (foldSrc A0 A1 k) (foldDst A0 A1 ls lb le) S S')
-  | fold0 (A : List Node) (k : Nat) (ls le : Event) (h : Fold0Side A k ls le)
-      (htr : SongRel (fold0Src A k) (fold0Dst A ls le) S S')
-  | extract (X : List Node) (j : Event) (h : ExtractSide X j)
-      (hfresh : S.track? (trackIdOfParam j.param) = none)
-      (hnew : S'.track? (trackIdOfParam j.param) = some (flattenL X))
-      (htr : SongRel X [.ev j] S S')
-
-/-- every step keeps every track and relates the performances -/
-theorem Step.rel {S S' : Song} (h : Step S S') {id : Nat} {t : List Event} (ht : S.track? id = some t) :
-    ∃ t', S'.track? id = some t' ∧ ResRel (perf S t) (perf S' t') := by
-  cases h with
-  | fold A0 A1 k ls lb le h htr =>
-    obtain ⟨t', h1, hr⟩ := htr id t ht
-    exact ⟨t', h1, C01_fold_rel h htr hr⟩
-  | fold0 A k ls le h htr =>
-    obtain ⟨t', h1, hr⟩ := htr id t ht
-    exact ⟨t', h1, C01_fold0_rel h htr hr⟩
-  | extract X j h _ hnew htr =>
-    obtain ⟨t', h1, hr⟩ := htr id t ht
-    exact ⟨t', h1, C01_extract_rel h hnew htr hr⟩
-
-theorem Step.preserve {S S' : Song} (h : Step S S') {id : Nat} (h0 : okTrack S id) (h1 : okTrack S' id) :
-    obsOf S' id = obsOf S id := by
-  obtain ⟨t, items, ht, hp⟩ := h0
-  obtain ⟨t', items', ht', hp'⟩ := h1
-  obtain ⟨t'', h2, hr⟩ := h.rel ht
-  rw [ht'] at h2
-  cases h2
-  simp only [obsOf, ht, ht', hp, hp', hr.sound hp hp']
-
-theorem Step.accepts {S S' : Song} (h : Step S S') {id : Nat} (h0 : okTrack S id)
-    (hd : ∀ t', S'.track? id = some t' → perf S' t' ≠ .error .depth) : okTrack S' id := by
-  obtain ⟨t, items, ht, hp⟩ := h0
-  obtain ⟨t', h2, hr⟩ := h.rel ht
-  obtain ⟨y, hy⟩ := hr.accepts hp (hd t' h2)
-  exact ⟨t', y, h2, hy⟩
-
-/-- `chain S [S1, …, Sn]`: `S → S1 → … → Sn` are optimiser passes -/
-def chain : Song → List Song → Prop
-  | _, [] => True
-  | S, S1 :: r => Step S S1 ∧ chain S1 r
-
-def lastSong : Song → List Song → Song
-  | S, [] => S
-  | _, S1 :: r => lastSong S1 r
 
 /-- **Any finite sequence of passes preserves the observation of every original track**,
 provided the track validates in every intermediate song. -/
@@ -532,52 +343,6 @@ the players use as scratch space).  The specification does not depend on those p
 namespace Ctrmml.C01
 open Ctrmml Ctrmml.Tree Ctrmml.Expand Ctrmml.Rewrite Ctrmml.Opt Ctrmml.OptSteps Tables
 
-/-- one optimiser pass up to `LOOP_BREAK` params: `S1` differs from `S` only in the params of
-`LOOP_BREAK` events (`BrkEqv`), and `S1 → S'` is one of the rewrites under its side conditions -/
-inductive StepN (S S' : Song) : Prop
-  | mk (S1 : Song) (hb : BrkEqv S S1) (hs : Step S1 S')
-
-theorem Step.toN {S S' : Song} (h : Step S S') : StepN S S' := ⟨S, BrkEqv.refl S, h⟩
-
-/-- every such step keeps every track and relates the performances -/
-theorem StepN.rel {S S' : Song} (h : StepN S S') {id : Nat} {t : List Event} (ht : S.track? id = some t) :
-    ∃ t', S'.track? id = some t' ∧ ResRel (perf S t) (perf S' t') := by
-  obtain ⟨S1, hb, hs⟩ := h
-  have h1 := hb id
-  rw [ht] at h1
-  cases ht1 : S1.track? id with
-  | none => rw [ht1] at h1; simp at h1
-  | some t1 =>
-    rw [ht1] at h1
-    simp only [Option.map_some, Option.some.injEq] at h1
-    obtain ⟨t', h2, hr⟩ := hs.rel ht1
-    exact ⟨t', h2, (perf_brk hb h1.symm).then_rel hr⟩
-
-theorem StepN.preserve {S S' : Song} (h : StepN S S') {id : Nat} (h0 : okTrack S id) (h1 : okTrack S' id) :
-    obsOf S' id = obsOf S id := by
-  obtain ⟨t, items, ht, hp⟩ := h0
-  obtain ⟨t', items', ht', hp'⟩ := h1
-  obtain ⟨t'', h2, hr⟩ := h.rel ht
-  rw [ht'] at h2
-  cases h2
-  simp only [obsOf, ht, ht', hp, hp', hr.sound hp hp']
-
-theorem StepN.accepts {S S' : Song} (h : StepN S S') {id : Nat} (h0 : okTrack S id)
-    (hd : ∀ t', S'.track? id = some t' → perf S' t' ≠ .error .depth) : okTrack S' id := by
-  obtain ⟨t, items, ht, hp⟩ := h0
-  obtain ⟨t', h2, hr⟩ := h.rel ht
-  obtain ⟨y, hy⟩ := hr.accepts hp (hd t' h2)
-  exact ⟨t', y, h2, hy⟩
-
-/-- `chainN S [S1, …, Sn]`: `S → S1 → … → Sn` are optimiser passes up to `LOOP_BREAK` params -/
-def chainN : Song → List Song → Prop
-  | _, [] => True
-  | S, S1 :: r => StepN S S1 ∧ chainN S1 r
-
-theorem chain.toN : ∀ (S : Song) (l : List Song), chain S l → chainN S l
-  | _, [], _ => trivial
-  | _, S1 :: r, h => ⟨h.1.toN, chain.toN S1 r h.2⟩
-
 /-- `C01_passes_preserve_nodepth` for passes up to `LOOP_BREAK` params -/
 theorem C01_passesN_preserve_nodepth (S : Song) (l : List Song) (hc : chainN S l) (id : Nat)
     (h0 : okTrack S id)
@@ -691,28 +456,6 @@ theorem applyMatch_loop_is_step {song : Song} {m : SAMap} {bm : Match} {subId : 
 
 /-! ## passes of `Opt.optimize` that fold loops -/
 
-/-- the `Song_Validator` run after every pass rejects (at least) songs one of whose tracks runs
-out of stack frames -/
-def ValidOK (valid : Song → Bool) : Prop :=
-  ∀ s, valid s = true → ∀ id t, s.track? id = some t → perf s t ≠ .error .depth
-
-/-- the validator of the property: every track of the song validates -/
-def validAll (s : Song) : Bool :=
-  s.tracks.all fun p => match perf s p.2 with | .ok _ => true | .error _ => false
-
-theorem validAll_ok {s : Song} (h : validAll s = true) {id : Nat} {t : List Event} (ht : s.track? id = some t) :
-    ∃ items, perf s t = .ok items := by
-  have := List.all_eq_true.1 h (id, t) (mem_of_lookup ht)
-  simp only at this
-  split at this
-  · rename_i x hx; exact ⟨x, hx⟩
-  · simp at this
-
-theorem validAll_validOK : ValidOK validAll := by
-  intro s h id t ht
-  obtain ⟨x, hx⟩ := validAll_ok h ht
-  rw [hx]; simp
-
 /-- **One pass of `find_best_match` that takes the loop branch** (or finds nothing) is a loop
 fold up to `LOOP_BREAK` params, and keeps the song well formed. -/
 theorem pass_loop_is_step {song : Song} {m : SAMap} {subId : Int} {s' : Song} {best : Match} {subId' : Int}
@@ -740,28 +483,6 @@ theorem pass_loop_is_step {song : Song} {m : SAMap} {subId : Int} {s' : Song} {b
     have hL : 3 ≤ best.loopLength := by have := hok.minLen; rw [minLoopScore_eq] at this; exact this
     obtain ⟨f1, f2, f3⟩ := foldedTrack_wf hok.lt hw.len hL hrep w1 w2
     exact hwf.setTrack hsrc f1 f2 (by omega)
-
-theorem optimize_passes_prefix (valid : Song → Bool) (minScore : Int) :
-    ∀ (fuel : Nat) (song : Song) (subId : Int) (acc : List Match) (r : OptResult),
-    optimize valid minScore fuel song subId acc = .ok r → ∃ ps, r.passes = acc ++ ps := by
-  intro fuel
-  induction fuel with
-  | zero => intro song subId acc r h; simp [optimize] at h
-  | succ fuel ih =>
-    intro song subId acc r h
-    unfold optimize at h
-    obtain ⟨m, _, h⟩ := bind_ok h
-    obtain ⟨x, _, h⟩ := bind_ok h
-    obtain ⟨s', best, subId'⟩ := x
-    simp only at h
-    split at h
-    · simp only [pure, Except.pure, Except.ok.injEq] at h
-      exact ⟨[best], by rw [← h]⟩
-    · split at h
-      · obtain ⟨ps, hps⟩ := ih _ _ _ _ h
-        exact ⟨best :: ps, by rw [hps]; simp⟩
-      · simp only [pure, Except.pure, Except.ok.injEq] at h
-        exact ⟨[best], by rw [← h]⟩
 
 /-- a run of `Opt.optimize` all of whose passes take the loop branch is a chain of loop folds
 (up to `LOOP_BREAK` params) through songs that the validator accepts -/
@@ -837,59 +558,6 @@ theorem C01_optimize_preserves_partial (song : Song) (minScore : Int) (fuel : Na
 
 /-! ## the subroutine branch of `apply_match` is a subroutine extraction -/
 
-/-- from the invariant of `find_subroutines` to an extraction step (up to `LOOP_BREAK` params):
-the intermediate song `S1` is the original one with every replaced occurrence made an exact copy
-of the phrase -/
-theorem stepN_of_subInv {song s3 : Song} {Xl : List Event} {subId : Int}
-    (hinv : SubInv song Xl (jumpEvent subId) (trackIdOfParam subId) s3)
-    (hfresh : song.track? (trackIdOfParam subId) = none)
-    (hne : NoEnd Xl) (hbal : scan Xl 0 = some 0) : StepN song s3 := by
-  obtain ⟨cX, bX, fX⟩ := forest_of_scan hne hbal
-  let j := jumpEvent subId
-  let X := parse Xl
-  let good : Nat → List Event → List Event → Prop := fun id evs evs1 =>
-    (∃ evs3, s3.track? id = some evs3 ∧ ERel X [.ev j] evs1 evs3) ∧ normL evs1 = normL evs
-  have hgood : ∀ id evs, song.track? id = some evs → ∃ evs1, good id evs evs1 := by
-    intro id evs he
-    have hid : id ≠ trackIdOfParam subId := by intro h; rw [h, hfresh] at he; cases he
-    rcases hinv.rel id hid with ⟨h1, _⟩ | ⟨evs0, evs', h1, h2, h3, _⟩
-    · rw [h1] at he; cases he
-    · rw [h1] at he; cases he
-      obtain ⟨evs1, g1, g2⟩ := h3.toERel (X := X) fX
-      exact ⟨evs1, ⟨evs', h2, g2⟩, g1⟩
-  have hgood' : ∀ id evs, ∃ evs1, song.track? id = some evs → good id evs evs1 := by
-    intro id evs
-    by_cases he : song.track? id = some evs
-    · obtain ⟨evs1, h1⟩ := hgood id evs he
-      exact ⟨evs1, fun _ => h1⟩
-    · exact ⟨evs, fun h => absurd h he⟩
-  let f : Nat → List Event → List Event := fun id evs => Classical.choose (hgood' id evs)
-  have hf : ∀ id evs, song.track? id = some evs → good id evs (f id evs) :=
-    fun id evs he => Classical.choose_spec (hgood' id evs) he
-  let S1 : Song := { tracks := song.tracks.map fun p => (p.1, f p.1 p.2) }
-  have hS1 : ∀ id, S1.track? id = (song.track? id).map (f id) := fun id => lookup_map_snd _ _ _
-  refine ⟨S1, ?_, ?_⟩
-  · intro id
-    rw [hS1]
-    cases he : song.track? id with
-    | none => rfl
-    | some evs =>
-      simp only [Option.map_some, Option.some.injEq]
-      exact (hf id evs he).2
-  · refine Step.extract X j ⟨cX, bX, jumpEvent_kind subId, ⟨rfl, rfl⟩⟩ ?_ ?_ ?_
-    · rw [hS1]; simp only [j]; rw [show (jumpEvent subId).param = subId from rfl, hfresh]; rfl
-    · show s3.track? (trackIdOfParam subId) = some (flattenL X)
-      rw [fX]; exact hinv.sub
-    · intro id evs1 he1
-      rw [hS1] at he1
-      cases he : song.track? id with
-      | none => rw [he] at he1; cases he1
-      | some evs =>
-        rw [he] at he1
-        simp only [Option.map_some, Option.some.injEq] at he1
-        rw [← he1]
-        exact (hf id evs he).1
-
 /-- **The subroutine branch of `apply_match` is one subroutine extraction** (`Step.extract`, any
 number of occurrences in any tracks), up to `LOOP_BREAK` params: the new track `(subId, X)` with
 `X` the balanced `subLength`-prefix at `position`, that occurrence replaced by the `JUMP`, and every
@@ -919,27 +587,6 @@ theorem applyMatch_sub_is_step {song : Song} {m : SAMap} {bm : Match} {subId : I
   exact ⟨stepN_of_subInv hinv hfresh (noEnd_take (noEnd_drop w1 _) _) hbal, hid, hinv⟩
 
 /-! ## every pass of `Opt.optimize` is a step; the whole run -/
-
-theorem validAll_of_ok {song : Song} (hnd : (song.tracks.map (·.1)).Nodup)
-    (hok : ∀ id, song.track? id ≠ none → okTrack song id) : validAll song = true := by
-  unfold validAll
-  rw [List.all_eq_true]
-  intro p hp
-  have hlk : song.track? p.1 = some p.2 := lookup_of_mem_nodup hnd (by simpa using hp)
-  obtain ⟨t, items, ht, hpf⟩ := hok p.1 (by rw [hlk]; simp)
-  rw [hlk] at ht
-  cases ht
-  simp [hpf]
-
-/-- a fresh subroutine id is not called anywhere in a song all of whose tracks validate -/
-theorem noJump_of_valid {song : Song} {subId : Int} (hwf : SongWF song) (hval : validAll song = true)
-    (hfresh : song.track? (trackIdOfParam subId) = none) {id : Nat} {t : List Event}
-    (ht : song.track? id = some t) : ∀ e ∈ t, e ≠ jumpEvent subId := by
-  intro e he hej
-  obtain ⟨items, hp⟩ := validAll_ok hval ht
-  have := jump_target_exists (hwf.track ht).1 hp he (by rw [hej]; exact jumpEvent_kind subId)
-  rw [hej] at this
-  exact this hfresh
 
 /-- **One pass of `find_best_match` (`find_match` over every position, then `apply_match`) is a
 step**: nothing (score 0), a loop fold, or a subroutine extraction — up to `LOOP_BREAK` params — and
@@ -1141,25 +788,168 @@ theorem C01_fold_pass_decreases {song : Song} {m : SAMap} {subId : Int} {s' : So
     · right
       constructor <;> omega
 
-/-- **Termination of the optimiser** — NOT proved.  The statement: for `0 ≤ minScore` the pass loop
-of `Opt.optimize` ends on every well-formed song, i.e. with enough fuel the run does not end in
-`.error .fuel`.
+/-- **A pass that extracts a subroutine strictly decreases the number of events of the song**: the
+new track has `subLength ≥ 3` events, the occurrence the match was found at and at least one more
+occurrence are replaced by one `JUMP` each (`find_subroutines` finds the occurrence `find_match`
+counted again — `OptSubTerm.counted_found` — unless it has already replaced an earlier one). -/
+theorem C01_extract_pass_decreases {song : Song} {m : SAMap} {subId : Int} {s' : Song} {best : Match} {subId' : Int}
+    (hwf : SongWF song) (hfr : FreshInv song subId)
+    (hfb : findBestMatch song m subId = .ok (s', best, subId'))
+    (hl : best.loopScore < best.subScore) (hs : 1 ≤ best.bestScore) :
+    totalEvents s' + 1 ≤ totalEvents song := by
+  rcases findBestMatch_spec hfb with ⟨h0, _, _⟩ | ⟨_, ⟨srcT, srcPos, hfm⟩, m', happ⟩
+  · omega
+  obtain ⟨ht, hp, _, _⟩ := findMatch_spec hwf.nodup hfm
+  obtain ⟨src, hsrc⟩ := findMatch_track hfm
+  have hpos : 0 < best.subScore := by
+    unfold Match.bestScore at hs
+    rw [if_pos hl] at hs
+    omega
+  have hso := findMatch_subOK2 hsrc hfm hpos
+  rw [← ht, ← hp] at hso
+  rw [← ht] at hsrc
+  exact applyMatch_sub_decreases qsortPerm_of_core hwf.nodup hl hsrc hfr.track_none hso happ
 
-What is proved of it: `C01_fold_pass_decreases` — a pass that folds a loop strictly decreases the
-measure `(totalEvents, playedEvents)`.  What is missing:
-* the same for a pass that extracts a subroutine: it has to be shown that `find_subroutines`
-  replaces at least the `subRepeats` occurrences `find_match` counted (then the pass removes
-  exactly `score ≥ 1` events net); `find_match` counts matches of length `≥ subLength` while
-  `find_subroutines` asks for `find_match_length = subLength` on the mutated song with a spliced
-  stack list, so this is a correspondence between two different searches;
-* `Opt.analyzeTrack` reports the exhaustion of its own recursion budget (`tracks.length + 2`)
-  with the same `OErr.fuel`; that this budget is never exhausted (the `parsing` guard bounds the
-  recursion by the number of distinct call parameters) is not proved. -/
+/-- **Every pass after which the pass loop goes on strictly decreases the termination measure**
+`(number of events, number of events that are not loop brackets/breaks)`, lexicographically, and
+uses up at most one subroutine id per event it removes. -/
+theorem C01_pass_decreases {song : Song} {m : SAMap} {subId : Int} {s' : Song} {best : Match} {subId' : Int}
+    (hwf : SongWF song) (hfr : FreshInv song subId) (hval : validAll song = true) (hnext : subId + 1 < 32768)
+    (hfb : findBestMatch song m subId = .ok (s', best, subId')) (hs : 1 ≤ best.bestScore) :
+    (totalEvents s' < totalEvents song ∨
+      (totalEvents s' = totalEvents song ∧ playedEvents s' < playedEvents song)) ∧
+    subId' + (totalEvents s' : Int) ≤ subId + (totalEvents song : Int) := by
+  by_cases hl : best.loopScore < best.subScore
+  · have h1 := C01_extract_pass_decreases hwf hfr hfb hl hs
+    obtain ⟨_, _, _, h2⟩ := pass_is_step hwf hfr hval hnext hfb
+    exact ⟨Or.inl (by omega), by omega⟩
+  · have h1 := C01_fold_pass_decreases hwf hfb hl hs
+    obtain ⟨_, _, h2⟩ := pass_loop_is_step hwf hfb hl
+    refine ⟨h1, ?_⟩
+    rw [h2]
+    rcases h1 with h | ⟨h, _⟩ <;> omega
+
+/-- a pass keeps the call parameters within `int16_t` -/
+theorem pass_i16 {song : Song} {m : SAMap} {subId : Int} {s' : Song} {best : Match} {subId' : Int}
+    (hwf : SongWF song) (hfr : FreshInv song subId) (hval : validAll song = true) (hnext : subId + 1 < 32768)
+    (hi : SongI16 song) (hfb : findBestMatch song m subId = .ok (s', best, subId')) : SongI16 s' := by
+  obtain ⟨_, hwf', _, _⟩ := pass_is_step hwf hfr hval hnext hfb
+  rcases findBestMatch_spec hfb with ⟨_, h1, _⟩ | ⟨hbs, ⟨srcT, srcPos, hfm⟩, m', happ⟩
+  · rw [h1]; exact hi
+  obtain ⟨ht, hp, _, _⟩ := findMatch_spec hwf.nodup hfm
+  obtain ⟨src, hsrc⟩ := findMatch_track hfm
+  rw [← ht] at hsrc
+  have hci : CallI16 src := hi _ (mem_of_lookup hsrc)
+  by_cases hl : best.loopScore < best.subScore
+  · have hpos : 0 < best.subScore := by
+      unfold Match.bestScore at hbs
+      rw [if_pos hl] at hbs
+      have := (findMatch_spec hwf.nodup hfm).2.2.1
+      omega
+    have hso := findMatch_subOK hsrc (by rw [ht]; exact hfm) hpos
+    obtain ⟨hlen, hbal⟩ := subOK_balanced hsrc hso
+    rw [← hp] at hlen hbal
+    have hfresh := hfr.track_none
+    obtain ⟨_, _, hinv⟩ := applyMatch_sub_is_step hwf hl hsrc hfresh
+      (noJump_of_valid hwf hval hfresh hsrc) hlen hbal happ
+    exact songI16_of_subInv hwf'.nodup hinv hi (callI16_take (callI16_drop hci _) _)
+      ⟨by have := hfr.lo; omega, hfr.hi⟩
+  · rw [applyMatch_loop_eq hsrc hl] at happ
+    simp only [Except.ok.injEq, Prod.mk.injEq] at happ
+    rw [← happ.1]
+    exact songI16_setTrack hi hsrc (callI16_foldedTrack hci _ _ _)
+
+/-- the pass loop does not run out of fuel above the measure of the song -/
+theorem optimize_no_fuel (valid : Song → Bool) (hvalid : ∀ s, valid s = true → validAll s = true)
+    (minScore : Int) (hmin : 0 ≤ minScore) :
+    ∀ (fuel : Nat) (song : Song) (subId : Int) (acc : List Match),
+    SongWF song → FreshInv song subId → validAll song = true → SongI16 song →
+    subId + (totalEvents song : Int) < 32767 → optMeasure song < fuel →
+    optimize valid minScore fuel song subId acc ≠ .error .fuel := by
+  intro fuel
+  induction fuel with
+  | zero => intro song subId acc _ _ _ _ _ h; omega
+  | succ fuel ih =>
+    intro song subId acc hwf hfr hval hi hid hmu
+    unfold optimize
+    cases h1 : analyzeStack song with
+    | error e =>
+      simp only [bind, Except.bind]
+      intro h
+      cases h
+      exact analyzeStack_no_fuel hi h1
+    | ok m =>
+      simp only [bind, Except.bind]
+      cases h2 : findBestMatch song m subId with
+      | error e =>
+        simp only
+        intro h
+        cases h
+        exact findBestMatch_NF song m subId h2
+      | ok x =>
+        obtain ⟨s', best, subId'⟩ := x
+        simp only
+        split
+        · simp [pure, Except.pure]
+        · rename_i hvs
+          split
+          · rename_i hgt
+            have hval' : validAll s' = true := hvalid s' (by simpa using hvs)
+            have hnext : subId + 1 < 32768 := by omega
+            obtain ⟨_, hwf', hfr', _⟩ := pass_is_step hwf hfr hval hnext h2
+            obtain ⟨hdec, hid'⟩ := C01_pass_decreases hwf hfr hval hnext h2 (by omega)
+            exact ih s' subId' _ hwf' hfr' hval' (pass_i16 hwf hfr hval hnext hi h2) (by omega)
+              (by have := optMeasure_lt hdec; omega)
+          · simp [pure, Except.pure]
+
+/-- **Termination of the optimiser**, the statement without side conditions on the size of the
+song — NOT proved in this form.  For `0 ≤ minScore` the pass loop of `Opt.optimize` ends on every
+well-formed song, i.e. with enough fuel the run does not end in `.error .fuel`.
+`C01_optimize_terminates_partial` proves it under three extra hypotheses (see there). -/
 def C01_optimize_terminates_statement : Prop :=
   ∀ (song : Song) (minScore : Int), 0 ≤ minScore → SongWF song →
     (song.tracks.map (·.1)).Pairwise (· < ·) → (∀ p ∈ song.tracks, p.1 < 32767) →
     ∀ fuel, (totalEvents song + 1) * (totalEvents song + 1) < fuel →
       optimize validAll minScore fuel song (initialSubId song) [] ≠ .error .fuel
+
+/-- **C01, termination of the optimiser.**  For every threshold `0 ≤ minScore` and every
+well-formed song (track list in id order without duplicates and ids below 32767, no explicit `END`
+event, `LOOP_BREAK`s without duration, tracks shorter than 32767 events) the run of `Opt.optimize`
+— stack analysis with its own recursion budget, `find_best_match`, `apply_match`, validator after
+every pass — does not end in `.error .fuel` for any fuel above `(totalEvents song + 1)²`: neither
+the pass loop nor the recursion of `analyze_track` exhausts its budget.  Every pass after which the
+loop goes on strictly decreases `(totalEvents, playedEvents)` (`C01_pass_decreases`).
+
+`_partial`: three hypotheses are added to `C01_optimize_terminates_statement`:
+* `hok` — every track of the input song validates (the assumption of property C01; the proof uses it
+  to know that a fresh subroutine id is not called anywhere);
+* `hi` — the parameters of `JUMP` and `NOTE` events are `int16_t` values.  True of every C++ `Event`
+  by its type; the model keeps `param` as an unbounded `Int`, and without the hypothesis the model's
+  `analyzeStack` does exhaust its budget (`Ex2.analyzeStack_fuel_artefact`);
+* `hsz` — `initialSubId song + totalEvents song < 32767`: the subroutine ids the run can hand out
+  (at most one per removed event) stay within `int16_t` (neighbourhood of defect D3: beyond that
+  `sub_id` wraps to negative values). -/
+theorem C01_optimize_terminates_partial (song : Song) (minScore : Int) (hmin : 0 ≤ minScore) (hwf : SongWF song)
+    (hsorted : (song.tracks.map (·.1)).Pairwise (· < ·)) (hids : ∀ p ∈ song.tracks, p.1 < 32767)
+    (hok : ∀ id, song.track? id ≠ none → okTrack song id) (hi : SongI16 song)
+    (hsz : initialSubId song + (totalEvents song : Int) < 32767)
+    (fuel : Nat) (hfuel : (totalEvents song + 1) * (totalEvents song + 1) < fuel) :
+    optimize validAll minScore fuel song (initialSubId song) [] ≠ .error .fuel :=
+  optimize_no_fuel validAll (fun _ h => h) minScore hmin fuel song _ [] hwf
+    (initialSubId_fresh hsorted hids) (validAll_of_ok hwf.nodup hok) hi hsz
+    (by have := optMeasure_bound song; omega)
+
+/-- **The stack analysis never exhausts its recursion budget** (`tracks.length + 2` frames): the
+`parsing` guard of `analyze_track` bounds the depth of the recursion by one plus the number of
+tracks (`OptAnalyze.analyzeTrack_good`: every nested frame marks one more track as being parsed). -/
+theorem C01_analyzeStack_budget (song : Song) (hi : SongI16 song) : analyzeStack song ≠ .error .fuel :=
+  analyzeStack_no_fuel hi
+
+/-- the same for a single call of `analyze_track` with any analyser map, key and event list -/
+theorem C01_analyzeTrack_budget (song : Song) (hi : SongI16 song) (m : SAMap) (self : Int) (evs : List Event)
+    (drum : Int) (hc : CallI16 evs) (fuel : Nat) (hf : song.tracks.length + 1 ≤ fuel) :
+    analyzeTrack song fuel m self evs drum ≠ .error .fuel :=
+  analyzeTrack_no_fuel hi m self evs drum hc fuel hf
 
 end Ctrmml.C01
 
@@ -1243,5 +1033,91 @@ example (s3 : Song) (m3 : SAMap) (id' : Int) (h : applyMatch songS mS bmS 15000 
   obtain ⟨h1, h2, _⟩ := applyMatch_sub_is_step (src := [n 1, n 2, n 3, n 4, n 9]) wfS (by decide) rfl
     (by decide) (by decide) (by decide) (by decide) h
   exact ⟨h1, by rw [h2]; decide⟩
+
+/-! ### termination -/
+
+instance (p : Int) : Decidable (I16 p) := by unfold I16; infer_instance
+instance (l : List Event) : Decidable (CallI16 l) := by unfold CallI16; infer_instance
+instance (S : Song) : Decidable (SongI16 S) := by unfold SongI16; infer_instance
+
+def jmp (k : Int) : Event := ⟨ev_JUMP, k, 0, 0⟩
+
+/-- two tracks that call each other, and a track 65535 that is called with parameter `-1`: the
+hypothesis of `C01_analyzeStack_budget` holds, so the stack analysis stays within its budget -/
+def songR : Song := { tracks := [(0, [n 1, jmp 1, jmp (-1)]), (1, [jmp 0, n 2]), (65535, [jmp (-1), jmp 1])] }
+
+example : analyzeStack songR ≠ .error .fuel := C01_analyzeStack_budget songR (by decide)
+
+/-- one call of `analyze_track` on track 0 of that song with a budget of `3 + 1` frames -/
+example : analyzeTrack songR 4 [] 0 [n 1, jmp 1, jmp (-1)] 0 ≠ .error .fuel :=
+  C01_analyzeTrack_budget songR (by decide) [] 0 _ 0 (by decide) 4 (by decide)
+
+/-- **The `int16_t` hypothesis cannot be dropped in the model** (a model artefact, not a defect of
+the C++, whose `Event::param` is an `int16_t`): parameters that differ by multiples of 65536 name
+the same track but have different analysers, so one track with three such calls to itself needs
+four frames; the budget is `1 + 2`. -/
+def songA : Song := { tracks := [(0, [jmp 65536, jmp 131072, jmp 196608])] }
+
+theorem analyzeStack_fuel_artefact : analyzeStack songA = .error .fuel := by
+  have k1 : trackIdOfParam 65536 = 0 := by decide
+  have k2 : trackIdOfParam 131072 = 0 := by decide
+  have k3 : trackIdOfParam 196608 = 0 := by decide
+  have j1 : ev_JUMP ≠ ev_LOOP_START := by decide
+  have j2 : ev_JUMP ≠ ev_NOTE := by decide
+  have w1 : wrap16 1 = 1 := by decide
+  have w2 : wrap16 2 = 2 := by decide
+  have w3 : wrap16 3 = 3 := by decide
+  have w4 : wrap16 4 = 4 := by decide
+  have w5 : wrap16 5 = 5 := by decide
+  simp [analyzeStack_eq, List.foldlM, asBody, songA, analyzeTrack.eq_2, go_cons, stepR, calleeR, analyzeTrack.eq_1,
+    jmp, usage0, k1, k2, k3, j1, j2, getSA, setSA, List.lookup, Song.track?, w1, w2, w3, w4, w5]
+
+example : ¬ SongI16 songA := by decide
+
+theorem freshL : FreshInv songL 15000 := ⟨by decide, by decide, by decide⟩
+theorem freshS : FreshInv songS 15000 := ⟨by decide, by decide, by decide⟩
+
+/-- `C01_pass_decreases` on the pass that folds `songL` (evaluated above: the result is `[c]6`,
+`best = bmL`): six events become three -/
+example (s' : Song) (best : Match) (id' : Int) (hfb : findBestMatch songL mL 15000 = .ok (s', best, id'))
+    (hs : 1 ≤ best.bestScore) :
+    (totalEvents s' < totalEvents songL ∨
+      (totalEvents s' = totalEvents songL ∧ playedEvents s' < playedEvents songL)) ∧
+    id' + (totalEvents s' : Int) ≤ 15000 + (totalEvents songL : Int) :=
+  C01_pass_decreases wfL freshL (by decide) (by decide) hfb hs
+
+example : totalEvents songL = 6 ∧ totalEvents ⟨[(0, [lsEv, n 1, leEv 6])]⟩ = 3 ∧ bmL.bestScore = 3 := by decide
+
+/-- `C01_extract_pass_decreases` on the pass that extracts the four-note phrase of `songS` (the
+compiled model evaluates it to `0: *15000 n9`, `1: n7 *15000`, `15000: n1 n2 n3 n4`: ten events
+become eight) -/
+example (s' : Song) (best : Match) (id' : Int) (hfb : findBestMatch songS mS 15000 = .ok (s', best, id'))
+    (hl : best.loopScore < best.subScore) (hs : 1 ≤ best.bestScore) :
+    totalEvents s' + 1 ≤ totalEvents songS :=
+  C01_extract_pass_decreases wfS freshS hfb hl hs
+
+example : bmS.loopScore < bmS.subScore ∧ 1 ≤ bmS.bestScore ∧ totalEvents songS = 10 := by decide
+
+/-- `pass_i16` on that pass: the inserted `JUMP 15000` is an `int16_t` call -/
+example (s' : Song) (best : Match) (id' : Int) (hfb : findBestMatch songS mS 15000 = .ok (s', best, id')) :
+    SongI16 s' :=
+  pass_i16 wfS freshS (by decide) (by decide) (by decide) hfb
+
+/-- the hypotheses of `C01_optimize_terminates_partial` are satisfiable: the run on `songL` does not
+run out of fuel for any fuel above `(6 + 1)²` -/
+example (fuel : Nat) (h : 49 < fuel) : optimize validAll 0 fuel songL (initialSubId songL) [] ≠ .error .fuel :=
+  C01_optimize_terminates_partial songL 0 (by decide) wfL (by decide) (by decide)
+    (fun id hid => by
+      have : id = 0 := by
+        by_cases h : id = 0
+        · exact h
+        · exfalso; apply hid
+          have hb : (id == 0) = false := by simp [h]
+          simp [Song.track?, songL, List.lookup, hb]
+      subst this
+      exact ⟨_, List.replicate 6 (item (n 1)), rfl, by rfl⟩)
+    (by decide) (by decide) fuel (by
+      have : totalEvents songL = 6 := by decide
+      rw [this]; omega)
 
 end Ctrmml.C01.Ex2
